@@ -21,8 +21,8 @@ SPEC = {
     "watchdog_s": {"quick": 900, "thorough": 3600},
 }
 PLAN = {
-    "quick": {"small_n": 4, "random": {"M2": 2500, "M3": 800, "M4": 400, "M5": 400, "M7s": 300}, "k": 1, "corpus": True},
-    "thorough": {"small_n": 5, "small_sample": 0.1, "random": {"M2": 25000, "M3": 8000, "M4": 4000, "M5": 4000, "M7s": 3000}, "k": 1, "corpus": True, "cfi": 6},
+    "quick": {"small_n": 4, "random": {"M2": 2500, "M3": 800, "M4": 400, "M5": 400, "M7s": 300, "M10hiso": 200}, "k": 1, "corpus": True},
+    "thorough": {"small_n": 5, "small_sample": 0.1, "random": {"M2": 25000, "M3": 8000, "M4": 4000, "M5": 4000, "M7s": 3000, "M10hiso": 2000}, "k": 1, "corpus": True, "cfi": 6},
 }
 
 
